@@ -124,6 +124,12 @@ def handle_events(sol_tuple, events, consts, direction, is_terminal, attributes)
     up = ((g <= 0) & (g_new >= 0)) | ((g <= 0) & (g_cen >= 0)) | ((g_cen <= 0) & (g_new >= 0))
     down = ((g >= 0) & (g_new <= 0)) | ((g >= 0) & (g_cen <= 0)) | ((g_cen >= 0) & (g_new <= 0))
 
+    # A strict sign change across the root decides the direction on its own, the samples taken closer to
+    # the root below are at the level of the evaluation noise and would otherwise flag both directions
+    clear_crossing = (g * g_new) < 0
+    clear_up = clear_crossing & (g < 0)
+    clear_down = clear_crossing & (g > 0)
+
     for receptive_field in [1.0, 2.0, 3.0]:
         g = [ev_f[idx](t_root - receptive_field * (t_next - t_prev) * D.epsilon(roots[0].dtype) ** 0.75) for idx, t_root in
              enumerate(roots)]
@@ -135,6 +141,9 @@ def handle_events(sol_tuple, events, consts, direction, is_terminal, attributes)
 
         up = up | (((g <= 0) & (g_new >= 0)) | ((g <= 0) & (g_cen >= 0)) | ((g_cen <= 0) & (g_new >= 0)))
         down = down | ((g >= 0) & (g_new <= 0)) | ((g >= 0) & (g_cen <= 0)) | ((g_cen >= 0) & (g_new <= 0))
+
+    up = D.ar_numpy.where(clear_crossing, clear_up, up)
+    down = D.ar_numpy.where(clear_crossing, clear_down, down)
 
     up = success & up
     down = success & down
